@@ -388,6 +388,11 @@ theorem bitmatrix_getRow (m : WMat) (y : Nat) (row : Option WArr) (h : InvM m) (
 theorem bitmatrix_toString (m : WMat) (h : InvM m) (set unset sep : List Nat) :
     m.toStr set unset sep = .ok ((absM m).toStr set unset sep) := WMat.toStr_refines m h set unset sep
 
+/-- `GetEnclosingRectangle()`: `nil` for an all-clear matrix, otherwise the bounding box
+    `[left, top, width, height]` of the set cells (needs the padding to be clear: D2). -/
+theorem bitmatrix_enclosingRectangle (m : WMat) (h : InvM m) :
+    m.getEnclosingRectangle = .ok (absM m).enclosingRectangle := WMat.encl_refines m h
+
 /-- `GetTopLeftOnBit()`: the first set cell in row-major order (needs the padding to be clear). -/
 theorem bitmatrix_topLeftOnBit (m : WMat) (h : InvM m) :
     m.getTopLeftOnBit = .ok (absM m).topLeftOnBit := WMat.topLeft_refines m h
@@ -503,6 +508,7 @@ theorem bitmatrix_refines_spec (ops : List MOp) : ∀ (m : WMat), InvM m → val
       (∀ x y, m'.atGray x y = .ok ((absM m').atGray x y)) ∧
       (∀ y row, y < m'.height → (∀ r, row = some r → InvA r) →
         RefinesA (m'.getRow y row) ((absM m').getRow y (row.map absA))) ∧
+      m'.getEnclosingRectangle = .ok (absM m').enclosingRectangle ∧
       m'.getTopLeftOnBit = .ok (absM m').topLeftOnBit ∧
       m'.getBottomRightOnBit = .ok (absM m').bottomRightOnBit ∧
       (∀ set unset sep, m'.toStr set unset sep = .ok ((absM m').toStr set unset sep)) := by
@@ -510,7 +516,8 @@ theorem bitmatrix_refines_spec (ops : List MOp) : ∀ (m : WMat), InvM m → val
   | nil =>
     intro m h _
     exact ⟨m, rfl, h, rfl, fun x y => WMat.get_refines m x y h, fun x y => bitmatrix_at m x y h,
-      fun y row hy hrow => WMat.getRow_refines m y row h hy hrow, WMat.topLeft_refines m h,
+      fun y row hy hrow => WMat.getRow_refines m y row h hy hrow, WMat.encl_refines m h,
+      WMat.topLeft_refines m h,
       WMat.bottomRight_refines m h, fun set unset sep => WMat.toStr_refines m h set unset sep⟩
   | cons op ops ih =>
     intro m h hv
